@@ -5,14 +5,14 @@ import "verif/mc/runner"
 func init() {
 	add(&runner.Spec{
 		Prop: "C13",
-		Rule: "every type of the run-time type grammar (as C01) x every value with at most D non-default positions (D=2 quick, 3 thorough) x 3 placements; for each, 8 variant entry points/options, UnorderedMap, 4 prefix/indent pairs (with and without a marked colour scheme) are related to Marshal's bytes; placements are related to each other whenever encoding/json gives one document for them. distinct_nontrivial counts distinct (relation, difference kind) outcomes.",
+		Rule: "every type of the run-time type grammar (as C01) x every value with at most D non-default positions (D=2 quick, 3 thorough) x 3 placements; for each, 8 variant entry points/options, UnorderedMap, 4 prefix/indent pairs (with and without a marked colour scheme) are related to Marshal's bytes; placements are related to each other whenever encoding/json gives one document for them. c13.depth: marshaler / RawMessage texts nested 9999..10001 containers deep (thorough: 1..20000) (arrays, objects, alternating; five carriers; three placements) under the same relations. distinct_nontrivial counts distinct (relation, difference kind) outcomes.",
 		StatesAre: "distinct (relation, difference kind) outcomes",
 		Assume: append([]string{
 			"encoding/json.Indent and encoding/json.HTMLEscape are the neutral formatters used to relate outputs",
 			"cases whose plain Marshal panics are counted and left to C01/C08",
 		}, commonAssume...),
 		Jobs: func(tier string) []runner.Job {
-			return []runner.Job{{Harness: "c13.types", Mode: "plain", Shards: 16}}
+			return []runner.Job{{Harness: "c13.types", Mode: "plain", Shards: 16}, {Harness: "c13.depth", Mode: "plain", Shards: 16}}
 		},
 	})
 }
